@@ -13,13 +13,13 @@ import re
 import signal
 
 from ..core import env, par, shrink
-from ..core.result import Failure, Report
+from ..core.result import Failure, Report, robust
 
 ID = "C16"
 POOL = ["", "a\n", "a", "a\nb\n", "a\nc\n"]
 FILES5 = ["d1/a.c", "d1/b.c", "d2/a.c", "d2/c.h", "e.cpp"]
 FILES6 = FILES5 + ["d2/f.cc"]
-VARIANTS = ["plain", "excluded-twin", "symlink-twin", "non-source-twin", "symlink-listed-first"]
+VARIANTS = ["plain", "excluded-twin", "symlink-twin", "non-source-twin", "symlink-listed-first", "overlapping-directories"]
 MTIME = 1_600_000_000   # every file gets the same mtime (cp -p, archive extraction, one clock tick): a shallow comparison cannot tell them apart
 
 
@@ -64,14 +64,14 @@ def expected(files, assign, variant):
     return {frozenset(g) for g in groups.values() if len(g) >= 2}
 
 
-def observe(root, excludes):
+def observe(root, excludes, extra_dirs=()):
     """(groups from find_duplicates, groups parsed from the printed report) or ('EXC', msg)"""
     from codebasin import CodeBase, report
 
     signal.signal(signal.SIGALRM, _alarm)
     signal.setitimer(signal.ITIMER_REAL, 10)
     try:
-        cb = CodeBase(root, exclude_patterns=list(excludes))
+        cb = CodeBase(root, *extra_dirs, exclude_patterns=list(excludes))
         got = report.find_duplicates(cb)
         g1 = [frozenset(os.path.relpath(str(p), root) for p in m) for m in got]
         buf = io.StringIO()
@@ -99,7 +99,8 @@ def observe(root, excludes):
 def judge(root, files, assign, variant):
     excludes = build(root, files, assign, variant)
     exp = expected(files, assign, variant)
-    got = observe(root, excludes)
+    # a code base may list overlapping directories: every file below d1 is then enumerated twice
+    got = observe(root, excludes, (os.path.join(root, "d1"),) if variant == "overlapping-directories" else ())
     show = sorted(sorted(g) for g in exp)
     if got[0] == "EXC":
         return [("exception", show, got[1])]
@@ -170,7 +171,7 @@ def _work(arg):
     out = []
     seen = set()
     for assign, v in fails[:40]:
-        f = mk_failure(_clean(root), files, list(assign), v)
+        f = robust(mk_failure, {"files": {fn: POOL[c] for fn, c in zip(files, assign)}, "variant": v}, _clean(root), files, list(assign), v)
         if f and f.key() not in seen:
             seen.add(f.key())
             out.append(f)
